@@ -415,7 +415,12 @@ func execUcan(a []string) Result {
 	alt.Fct = append([][]KV(nil), s.Fields.Fct...)
 	useVfr := vfr
 	fieldAlter := true
-	other := edPool[(atoi(strings.TrimLeft(s.Key, "edrsawp"))+7)%edPoolSize]
+	// a principal that is neither the issuer nor the audience (an "alteration" to the same DID is none)
+	oi := (atoi(strings.TrimLeft(s.Key, "edrsawp")) + 7) % edPoolSize
+	for edPool[oi].DID().String() == audS.DID().String() || edPool[oi].DID().String() == sg.DID().String() {
+		oi = (oi + 1) % edPoolSize
+	}
+	other := edPool[oi]
 	switch s.Alter {
 	case "none":
 	case "aud":
